@@ -115,6 +115,10 @@ const N_STATES: usize = 8;
 const MAX_OPS: usize = 48;
 const MAX_STEPS: usize = 700;
 
+/// bound on the length of the compared instruction sequences / on the explored path states
+const PATH_OPS: usize = 10;
+const PATH_CAP: usize = 4000;
+
 fn params() -> IlParams {
     IlParams {
         max_expr_depth: 2,
@@ -443,6 +447,58 @@ impl Snap {
         }
         s
     }
+}
+
+/// The instruction sequences that CAN be executed from `entry` when edge guards are ignored (the
+/// possibilistic reading of the property's "instruction sequences that can be executed from the
+/// entry"): every sequence of at most `limit` operations along a path of the graph, as a
+/// prefix-closed set of operation fingerprints.  The second set holds the sequences (at most
+/// `limit` long) of the paths that stop exactly at the end of block `stop` (used for append).
+/// None when the exploration exceeds `cap` states.
+fn path_language(s: &Snap, entry: usize, limit: usize, cap: usize, stop: Option<usize>) -> Option<(BTreeSet<Vec<u64>>, BTreeSet<Vec<u64>>)> {
+    let ops_of = |b: usize| -> Vec<u64> { s.blocks.get(&b).map(|is| is.iter().map(|(_, op)| engine::fingerprint(&format!("{}", op))).collect()).unwrap_or_default() };
+    let mut lang: BTreeSet<Vec<u64>> = BTreeSet::new();
+    let mut ends: BTreeSet<Vec<u64>> = BTreeSet::new();
+    let mut seen: BTreeSet<(usize, Vec<u64>)> = BTreeSet::new();
+    let mut work: Vec<(usize, Vec<u64>)> = vec![(entry, Vec::new())];
+    lang.insert(Vec::new());
+    while let Some((b, mut seq)) = work.pop() {
+        if !s.has(b) || !seen.insert((b, seq.clone())) {
+            continue;
+        }
+        if seen.len() > cap {
+            return None;
+        }
+        let mut cut = false;
+        for f in ops_of(b) {
+            if seq.len() >= limit {
+                cut = true;
+                break;
+            }
+            seq.push(f);
+            lang.insert(seq.clone());
+        }
+        if cut {
+            continue;
+        }
+        if stop == Some(b) {
+            ends.insert(seq.clone());
+        }
+        for t in s.succs(b) {
+            work.push((t, seq.clone()));
+        }
+    }
+    Some((lang, ends))
+}
+
+fn first_difference(want: &BTreeSet<Vec<u64>>, got: &BTreeSet<Vec<u64>>) -> Option<String> {
+    if let Some(x) = want.iter().find(|x| !got.contains(*x)) {
+        return Some(format!("a sequence of {} operations that could be executed before can no longer be executed", x.len()));
+    }
+    if let Some(x) = got.iter().find(|x| !want.contains(*x)) {
+        return Some(format!("a sequence of {} operations can be executed now that could not be executed before", x.len()));
+    }
+    None
 }
 
 /// Read the graph through the public getters and evaluate the invariants of the property text.
@@ -1075,6 +1131,16 @@ impl<'a> Exec<'a> {
             self.report("merge", "entry-changed", format!("entry() was {} before merge and is {:?} after", entry, after.entry))?;
             return Ok(());
         }
+        // the instruction sequences that can be executed from the entry (guards ignored) are the same
+        if let (Some((lb, _)), Some((la, _))) = (path_language(&before, entry, PATH_OPS, PATH_CAP, None), path_language(&after, entry, PATH_OPS, PATH_CAP, None)) {
+            self.obs.class("paths-compared-merge");
+            if let Some(d) = first_difference(&lb, &la) {
+                self.report("merge", "executable-sequences-changed", format!("{}\n  graph before: {}\n  graph after: {}", d, before.render(), after.render()))?;
+                return Ok(());
+            }
+        } else {
+            self.obs.exclude("merge-paths:too-many-paths");
+        }
         let exit_b = before.clean_exit();
         let flags = exit_b.is_some() && !self.tainted_exit && after.exit.map(|e| after.has(e)).unwrap_or(false);
         let exit_a = if flags { after.exit } else { None };
@@ -1144,6 +1210,35 @@ impl<'a> Exec<'a> {
         if after.entry.is_none() || after.exit.is_none() {
             self.report("append", "entry-or-exit-lost", format!("after a successful append entry() = {:?}, exit() = {:?}", after.entry, after.exit))?;
             return Ok(());
+        }
+        // the sequences that can be executed (guards ignored): those of the first graph, and every
+        // path of the first graph that stops at the end of its exit block followed by the second
+        // graph's.  This also covers an exit block that has out-edges of its own.
+        {
+            let lo = path_language(&osnap, osnap.entry.unwrap(), PATH_OPS, PATH_CAP, None);
+            let la = path_language(&after, after.entry.unwrap(), PATH_OPS, PATH_CAP, None);
+            let lb = if empty { Some((BTreeSet::from([Vec::new()]), BTreeSet::from([Vec::new()]))) } else { path_language(&before, before.entry.unwrap(), PATH_OPS, PATH_CAP, before.exit) };
+            if let (Some((lo, _)), Some((la, _)), Some((lb, eb))) = (lo, la, lb) {
+                let mut want: BTreeSet<Vec<u64>> = if empty { BTreeSet::new() } else { lb };
+                for p in &eb {
+                    for q in &lo {
+                        let mut x = p.clone();
+                        x.extend_from_slice(q);
+                        x.truncate(PATH_OPS);
+                        want.insert(x);
+                    }
+                }
+                self.obs.class("paths-compared-append");
+                if !empty && before.exit.map(|e| before.out_degree(e) > 0).unwrap_or(false) {
+                    self.obs.class("paths-compared-append-exit-has-out-edges");
+                }
+                if let Some(d) = first_difference(&want, &la) {
+                    self.report("append", "executable-sequences-changed", format!("{}\n  graph before: {}\n  appended: {}\n  result: {}", d, before.render(), osnap.render(), after.render()))?;
+                    return Ok(());
+                }
+            } else {
+                self.obs.exclude("append-paths:too-many-paths");
+            }
         }
         // meaning: a's run, then b's
         let vo = osnap.view(osnap.entry);
@@ -1535,7 +1630,7 @@ fn simplify(c: &Case) -> Vec<Case> {
 fn main() -> std::process::ExitCode {
     let mut spec = Spec::new(
         "C15",
-        "histories of 1-40 editing calls on one ControlFlowGraph (new_block, operations added to a block, unconditional_edge, conditional_edge with its complement, set_entry, set_exit, append(other), insert(other) with re-wiring, merge, Block::append, remove_instruction, and their invalid forms; block operands are selectors resolved on the live graph) and blockify of 0-5 generated per-instruction graphs; the invariants of the property are evaluated after every call, and merge / append / insert / blockify are compared with reference runs (fv::refil::Machine, 8 states) of the graph(s) before; non-trivial = a merge that removed at least one block or an append onto a non-empty graph; distinct = (set of call kinds, graph shape classes {cycle, self-loop, empty block, conditional edges, exit merged away}, capped counts of merges / appends / final blocks / final edges)",
+        "histories of 1-40 editing calls on one ControlFlowGraph (new_block, operations added to a block, unconditional_edge, conditional_edge with its complement, set_entry, set_exit, append(other), insert(other) with re-wiring, merge, Block::append, remove_instruction, and their invalid forms; block operands are selectors resolved on the live graph) and blockify of 0-5 generated per-instruction graphs; the invariants of the property are evaluated after every call, and merge / append / insert / blockify are compared with reference runs (fv::refil::Machine, 8 states) of the graph(s) before, and merge / append additionally by the set of instruction sequences of at most 10 operations that can be executed from the entry when guards are ignored (this also decides append onto a graph whose exit block has out-edges); non-trivial = a merge that removed at least one block or an append onto a non-empty graph; distinct = (set of call kinds, graph shape classes {cycle, self-loop, empty block, conditional edges, exit merged away}, capped counts of merges / appends / final blocks / final edges)",
         Box::new(|_t: Tier| from_tape(1400, decode)),
         |t| t.pick(60_000, 3_000_000),
         check,
@@ -1558,6 +1653,9 @@ fn main() -> std::process::ExitCode {
         ("append-onto-nonempty", 0.30),
         ("meaning-checked-merge", 0.40),
         ("meaning-checked-append", 0.30),
+        ("paths-compared-merge", 0.40),
+        ("paths-compared-append", 0.35),
+        ("paths-compared-append-exit-has-out-edges", 0.12),
         ("insert", 0.10),
         ("invalid-call-rejected", 0.20),
         ("blockify-multi-instruction", 0.05),
